@@ -1,8 +1,44 @@
 import Driver.Proto
+import Verif.Model.Num
+import Verif.Spec.Num
 /-! driver handlers for property C08 (ops `model.*`, `spec.*`, `trig.*`) -/
 namespace Verif.Driver.C08
 open Verif Verif.Driver
 
-def handlers : List (String × Handler) := []
+/-- `model.number input prec` → output bytes of the model of `minify.Number` -/
+def opNumber : Handler := fun args => do
+  let s ← argChars args 0
+  let p ← argInt args 1
+  .ok (charsToBytes (Model.Num.number s p))
+
+/-- `model.decimal input prec` → output bytes of the model of `minify.Decimal` -/
+def opDecimal : Handler := fun args => do
+  let s ← argChars args 0
+  let p ← argInt args 1
+  .ok (charsToBytes (Model.Num.decimal s p))
+
+/-- `spec.holds.c08 mode input prec output` → decimal fail mask (`0` = property holds);
+    mode `0` = Number (full grammar), `1` = Decimal (no exponent) -/
+def opHolds : Handler := fun args => do
+  let mode ← argInt args 0
+  let s ← argChars args 1
+  let p ← argInt args 2
+  let o ← argChars args 3
+  .ok (natBytes (Spec.Num.failMask (mode != 0) s p o))
+
+/-- `spec.isnumber input` → `1`/`0` followed by `1`/`0` for isDecimal -/
+def opGrammar : Handler := fun args => do
+  let s ← argChars args 0
+  .ok (boolBytes (Spec.Num.isNumber s) ++ boolBytes (Spec.Num.isDecimal s))
+
+/-- `trig.c08.expnear input prec` → `1` when the case falls under the known findings K-C08-1/2 -/
+def opTrig : Handler := fun args => do
+  let s ← argChars args 0
+  let p ← argInt args 1
+  .ok (boolBytes (Spec.Num.trigExpNear s p))
+
+def handlers : List (String × Handler) :=
+  [("model.number", opNumber), ("model.decimal", opDecimal), ("spec.holds.c08", opHolds),
+   ("spec.grammar.c08", opGrammar), ("trig.c08.expnear", opTrig)]
 
 end Verif.Driver.C08
